@@ -1023,7 +1023,11 @@ impl<'a, 'b> Gen<'a, 'b> {
         };
         let n = 1 + self.s.below(nmax.min(3));
         let mut used_vals: Vec<u64> = vec![];
-        for ch in 0..n {
+        let mut n = n;
+        let mut force_payload_sibling = false;
+        let mut ch = 0usize;
+        while ch < n {
+            ch += 1;
             // discriminating constraint
             let cons_main = match &dty {
                 None => {
@@ -1055,6 +1059,27 @@ impl<'a, 'b> Gen<'a, 'b> {
                     Cons { id: did.clone(), v: Cv::Tag(t.0) }
                 }
             };
+            // two siblings with the same constraint, told apart by their constant size only
+            if self.p.size_only_children && self.s.below(7) == 0 {
+                let k1 = 1 + self.s.below(3) as u32;
+                let k2 = k1 + 1 + self.s.below(2) as u32;
+                for k in [k1, k2] {
+                    let id = self.did(if packet { "P" } else { "S" });
+                    let fid = self.fid();
+                    self.decls.push(Decl::Record { id: id.clone(), packet, parent: Some(parent.to_string()), cons: vec![cons_main.clone()], fields: vec![Field::new(FieldDesc::Scalar { id: fid, w: 8 * k })] });
+                    if !packet {
+                        self.structs.push(StructInfo { id, min: k as u64, self_delim: false, static_size: None, is_child: true, derived_static: false });
+                    }
+                }
+                self.strata.push("inherit.same-constraint-size-twins".into());
+                // a sibling with another constraint and a payload of its own makes the size column of the
+                // generated match interesting: make sure one follows
+                force_payload_sibling = true;
+                if ch >= n && n < nmax {
+                    n += 1;
+                }
+                continue;
+            }
             let mut cons = vec![cons_main];
             let mut rest: Vec<(String, u32, Option<String>)> = avail.iter().filter(|a| a.0 != did && a.1 <= self.p.max_discr_width).cloned().collect();
             // alias level: no constraint here, the constraint moves to a grandchild
@@ -1082,7 +1107,8 @@ impl<'a, 'b> Gen<'a, 'b> {
             let id = self.did(if packet { "P" } else { "S" });
             let grand = depth + 1 < self.p.max_depth && (alias || self.s.below(4) == 0);
             self.in_child = true;
-            let (fields, discr) = self.gen_fields(if grand { 2 } else { 1 }, !packet, None);
+            let want_payload = grand || std::mem::take(&mut force_payload_sibling);
+            let (fields, discr) = self.gen_fields(if want_payload { 2 } else { 1 }, !packet, None);
             self.in_child = false;
             let has_payload = fields.iter().any(|f| matches!(f.d, FieldDesc::Payload { .. } | FieldDesc::Body));
             if alias {
@@ -1099,7 +1125,6 @@ impl<'a, 'b> Gen<'a, 'b> {
                 continue;
             }
             self.strata.push(format!("inherit.depth={}.{}", depth + 1, if dty.is_some() { "enum" } else { "scalar" }));
-            let _ = ch;
             self.decls.push(Decl::Record { id: id.clone(), packet, parent: Some(parent.to_string()), cons, fields });
             if !packet {
                 self.structs.push(StructInfo { id: id.clone(), min: 0, self_delim: false, static_size: None, is_child: true, derived_static: false });
